@@ -68,8 +68,12 @@ def identity? : Sexp → Option Identity
              name := ← Sexp.bytes? n, state := ← Sexp.toNat? state, ip := ← Sexp.toNat? ip }
   | _ => none
 
-/-- (base (policy s l f) (identity …) (name (b ..)) (time n) (generic status (ext…) (b data))) -/
+/-- (base (policy s l f) (identity …) (name (b ..)) (time n) (generic status (ext…) (b data)) [(ids session cid)]) :
+    the optional last item sets the first session handle and connection id the target grants -/
 def base? : Sexp → Option Base
+  | .list [.atom "base", pol, idn, nmv, tmv, gen, .list [.atom "ids", s0, c0]] => do
+      let b ← base? (.list [.atom "base", pol, idn, nmv, tmv, gen])
+      pure { b with nextSession := ← Sexp.toNat? s0, nextCid := ← Sexp.toNat? c0 }
   | .list [.atom "base", .list [.atom "policy", s, l, f], idn, .list [.atom "name", nm], .list [.atom "time", tm],
            .list [.atom "generic", gs, .list gext, gd]] => do
       let id ← identity? idn
